@@ -22,6 +22,9 @@ for p in props:
         })
     else:
         na.append({"property_id": p, "reason": s.get("reason", "check not built yet in this round; planned as in DESIGN.md section 5")})
+for e in src["engines"]:
+    e["serves_properties"] = [c["property_id"] for c in checks]
+src["hooks"]["source_commits"] = src["hooks"].get("source_commits", [])
 m = {
     "version": 1,
     "setup_cmd": "bin/setup",
